@@ -143,6 +143,40 @@ def build(op, env, arrays=None):
         return Stack(op["name"], tuple(env[p] for p in op["parts"]))
     if t == "cat":
         return Cat(op["name"], tuple(env[p] for p in op["parts"]), op.get("part_name") or op["name"])
+    if t == "gaussian":
+        from funsor.gaussian import Gaussian
+
+        bshape = tuple(sz for _, sz in op["batch"])
+        dim = sum(int(np.prod(sh)) if sh else 1 for _, sh in op["reals"])
+        A = np.array(op["mats"], dtype=np.float64).reshape(bshape + (dim, dim))
+        P = A @ np.swapaxes(A, -1, -2) + 0.5 * np.eye(dim)
+        L = np.linalg.cholesky(P)
+        loc = np.array(op["locs"], dtype=np.float64).reshape(bshape + (dim,))
+        white = (np.swapaxes(L, -1, -2) @ loc[..., None])[..., 0]
+        if arrays is not None:
+            arrays[op["out"] + ".white_vec"] = white
+            arrays[op["out"] + ".prec_sqrt"] = L
+        inputs = OrderedDict((n, Bint[sz]) for n, sz in op["batch"])
+        for n, sh in op["reals"]:
+            inputs[n] = Reals[tuple(sh)]
+        return Gaussian(white_vec=white, prec_sqrt=L, inputs=inputs)
+    if t == "delta":
+        from funsor.delta import Delta
+
+        return Delta(op["name"], env[op["point"]], env[op["ld"]] if op.get("ld") else Number(0.0))
+    if t == "affine":  # c * Variable(name) + d  (elementwise), a lazy affine expression of a real variable
+        v = Variable(op["name"], domain_of(op["domain"]))
+        return v * op["scale"] + op["shift"]
+    if t == "integrate":
+        from funsor.integrate import Integrate
+
+        lm, integrand = env[op["a"]], env[op["b"]]
+        rvars = frozenset(Variable(n, lm.inputs[n] if n in lm.inputs else integrand.inputs[n]) for n in op["vars"])
+        return Integrate(lm, integrand, rvars)
+    if t == "reduce_real":  # marginalise real inputs
+        a = env[op["a"]]
+        rvars = frozenset(Variable(n, a.inputs[n]) for n in op["vars"])
+        return a.reduce(get_op(op["fn"]), rvars)
     if t == "evreduce":  # reduction over event (output) dims
         a = env[op["a"]]
         return getattr(a, op["fn"])(op.get("axis"))
@@ -581,4 +615,132 @@ def gen_semiring(r):
             if other:
                 out = g.emit({"op": "binary", "fn": r.choice([prod_op, sum_op]) if sum_op not in ("logaddexp",) else prod_op, "a": term, "b": other})
                 term = out or term
+    return g.program, g.family_name
+
+
+REALS = {"x": [], "y": [2], "z": []}
+
+
+def gen_gauss(r):
+    """Gaussian / Delta / Integrate workload (log-density semiring): Gaussians over
+    1-3 real inputs with 0-2 batch inputs, log-weight tensors, Deltas; steps: add,
+    negate, substitute real inputs by constants / other variables / affine
+    expressions / batched tensors, substitute or reduce batch inputs, marginalise
+    real inputs, Integrate against polynomial integrands."""
+    g = Gen(r, family="log", max_event=0, real_vars=False)
+    sizes = g.sizes
+    vals = []
+
+    def gauss_leaf():
+        nb = r.choice([0, 0, 1, 1, 2])
+        batch = [[n, sizes[n]] for n in r.sample(NAMES[:3], nb)]
+        reals = [[n, REALS[n]] for n in sorted(r.sample(sorted(REALS), r.choice([1, 1, 2, 3])))]
+        r.shuffle(reals)
+        dim = sum(int(np.prod(sh)) if sh else 1 for _, sh in reals)
+        nb_total = int(np.prod([sz for _, sz in batch])) if batch else 1
+        return g.emit(
+            {
+                "op": "gaussian",
+                "batch": batch,
+                "reals": reals,
+                "mats": [round(r.gauss(0, 1), 3) for _ in range(nb_total * dim * dim)],
+                "locs": [round(r.gauss(0, 1), 3) for _ in range(nb_total * dim)],
+            }
+        )
+
+    def weights_leaf():
+        nb = r.choice([1, 1, 2])
+        names = r.sample(NAMES[:3], nb)
+        inputs = [[n, sizes[n]] for n in names]
+        shape = [sz for _, sz in inputs]
+        return g.emit({"op": "tensor", "inputs": inputs, "shape": shape, "dtype": "float", "data": g.data("real", int(np.prod(shape)))})
+
+    def real_value(shape, with_batch=True):
+        n = int(np.prod(shape)) if shape else 1
+        if with_batch and r.random() < 0.4:
+            b = r.choice(NAMES[:3])
+            return g.emit({"op": "tensor", "inputs": [[b, sizes[b]]], "shape": [sizes[b]] + list(shape), "dtype": "float", "data": g.data("real", sizes[b] * n)})
+        return g.emit({"op": "tensor", "inputs": [], "shape": list(shape), "dtype": "float", "data": g.data("real", n)})
+
+    for _ in range(r.randint(1, 3)):
+        v = gauss_leaf()
+        if v:
+            vals.append(v)
+    if r.random() < 0.6:
+        v = weights_leaf()
+        if v:
+            vals.append(v)
+    if not vals:
+        return g.generate(4), g.family_name
+    fresh = [0]
+    for _ in range(r.randint(2, 7)):
+        c = r.random()
+        a = r.choice(vals)
+        ta = g.types[a]
+        real_in = [n for n, d in ta.inputs.items() if d.dtype == "real"]
+        int_in = [n for n, d in ta.inputs.items() if d.dtype != "real"]
+        out = None
+        if c < 0.22:
+            b = r.choice(vals)
+            out = g.emit({"op": "binary", "fn": r.choice(["add", "add", "add", "sub"]), "a": a, "b": b})
+        elif c < 0.27:
+            out = g.emit({"op": "unary", "fn": "neg", "a": a})
+        elif c < 0.52 and real_in:
+            n = r.choice(real_in)
+            shape = list(ta.inputs[n].shape)
+            k = r.random()
+            if k < 0.4:
+                val = real_value(shape)
+                if val:
+                    out = g.emit({"op": "subs", "a": a, "subs": [[n, ["val", val]]]})
+            elif k < 0.6:
+                same = [m for m in REALS if REALS[m] == shape and m != n and m not in ta.inputs]
+                fresh[0] += 1
+                out = g.emit({"op": "subs", "a": a, "subs": [[n, ["name", r.choice(same) if same and r.random() < 0.5 else "w%d" % fresh[0]]]]})
+            else:
+                fresh[0] += 1
+                aff = g.emit(
+                    {
+                        "op": "affine",
+                        "name": r.choice(["u%d" % fresh[0]] + [m for m in REALS if REALS[m] == shape and m not in ta.inputs]),
+                        "domain": ["reals", shape] if shape else ["real"],
+                        "scale": round(r.uniform(0.5, 2.0), 2) * r.choice([1, -1]),
+                        "shift": round(r.uniform(-1, 1), 2),
+                    }
+                )
+                if aff:
+                    out = g.emit({"op": "subs", "a": a, "subs": [[n, ["val", aff]]]})
+        elif c < 0.62 and int_in:
+            n = r.choice(int_in)
+            d = ta.inputs[n]
+            if r.random() < 0.5:
+                out = g.emit({"op": "subs", "a": a, "subs": [[n, ["int", r.randrange(d.size)]]]})
+            else:
+                idx = g._index_value(d.size)
+                if idx:
+                    out = g.emit({"op": "subs", "a": a, "subs": [[n, ["val", idx]]]})
+        elif c < 0.78 and real_in:
+            names = r.sample(real_in, r.randint(1, len(real_in)))
+            out = g.emit({"op": "reduce_real", "fn": "logaddexp", "a": a, "vars": names})
+        elif c < 0.86 and int_in:
+            n = r.choice(int_in)
+            out = g.emit({"op": "reduce", "fn": r.choice(["add", "add", "logaddexp"]), "a": a, "vars": [[n, ta.inputs[n].size]]})
+        elif c < 0.95 and real_in:
+            n = r.choice(real_in)
+            shape = list(ta.inputs[n].shape)
+            integrand = g.emit({"op": "affine", "name": n, "domain": ["reals", shape] if shape else ["real"], "scale": round(r.uniform(0.5, 2.0), 2), "shift": round(r.uniform(-1, 1), 2)})
+            if integrand and shape:
+                integrand = g.emit({"op": "evreduce", "fn": "sum", "a": integrand, "axis": None})
+            if integrand:
+                out = g.emit({"op": "integrate", "a": a, "b": integrand, "vars": [n]})
+        elif real_in:
+            # a Delta on one of the real inputs, added to the term
+            n = r.choice(real_in)
+            pt = real_value(list(ta.inputs[n].shape))
+            if pt:
+                d = g.emit({"op": "delta", "name": n, "point": pt})
+                if d:
+                    out = g.emit({"op": "binary", "fn": "add", "a": d, "b": a})
+        if out:
+            vals.append(out)
     return g.program, g.family_name
